@@ -162,6 +162,21 @@ class C15Bounded(Bounded):
                             fail(f"{bname}:{n}", f"backend {bname}{' with filter' if with_filter else ''}: rule {n!r} converted in the order {list(perm)} gives {got.get(n)}, alone it gives {alone[n]}", [bname, list(perm), with_filter, n])
                 if len(samples) < 3:
                     samples.append({"backend": bname, "filter": with_filter, "alone": {k: str(v)[:120] for k, v in alone.items()}})
+        # a rule the backend cannot convert for a reason it did not foresee must still be ONE error record, the other rules unchanged
+        for kwkey in ("|windash", "|base64offset|contains"):
+            ev += 1
+            nontriv += 1
+            docs3 = [copy.deepcopy(RULES["portnum"]), {"title": "kw", "name": "kw", "logsource": {"category": "n"}, "detection": {"s": {kwkey: ["-a"]}, "condition": "s"}}, copy.deepcopy(RULES["litph"])]
+            b3 = TextQueryTestBackend(collect_errors=True)
+            try:
+                got3 = outcome(b3, docs3)
+                ok3 = got3.get("portnum") == tuple(TextQueryTestBackend().convert(SigmaCollection.from_dicts([copy.deepcopy(RULES["portnum"])]))) and got3.get("litph") is not None and got3.get("litph")[0] != "error"
+                what3 = str(got3)[:300]
+            except Exception as e:
+                ok3, what3 = False, f"{type(e).__name__}: {e}"
+            if not ok3:
+                known3 = "Unexpected value type class in condition parse tree: SigmaExpansion" in what3
+                fail("keyword-expansion" + (":known" if known3 else ""), ("KNOWN-D39 " if known3 else "") + f"collection [portnum, a keyword detection with the key {kwkey!r}, litph] on a collecting backend: {what3} - expected the two other rules converted and one error record (or a query) for the keyword rule", [kwkey])
         # backend options of one backend object are not visible to a later, different backend object
         def probe(_):
             pl = ProcessingPipeline.from_dict({"name": "q", "priority": 10, "transformations": [{"type": "value_placeholders", "include": ["backend_index"]}]})
